@@ -10,6 +10,9 @@ def run(ctx):
                 "executed for real under seeded completion delays and every recorded trace is validated by Trace_Dataflow; a case "
                 "is one real execution, distinct by its recorded event sequence")
     dflow_check.run_all(ctx, "C04")
+    # loops: a failing job inside a loop body (module LoopFail: the loop network + ExecuteStep + executor)
+    from vh.sut import loop_fail
+    loop_fail.check_failing_loops(ctx, focus="C04")
     ctx.assumptions += ["run-to-quiescence: pure asyncio continuations finish before the next I/O completion is processed (exhaustive runs only; trace acceptance uses the permissive interleaving)",
                         "generated networks follow the translator's well-formedness (aligned multi-input job steps, paired scatter/gather)"]
 
